@@ -4,9 +4,11 @@
     proofs: Proofs/ByteSizeProofs.v; tables regenerated from src/bytes.rs on every run by
     tools/rs2v_bytes.py: Generated/GenBytes.v.
 
-    Reading of the numbers: a binary64 is m * 2^e in exact integer arithmetic; [round53] is
-    `u64 as f64`; [hundredths v i] is the number of hundredths "{:.2}" prints for v / 1024^i.
-    Text is a list of Unicode scalar values; [cp] turns an ASCII string literal into one. *)
+    Reading of the numbers: since the repair `fix: compute byte sizes exactly instead of through f64`
+    both directions are integer arithmetic on the true value; binary64 survives only in the choice
+    of the printed unit ([round53] is `u64 as f64`). [hund n] is the number of hundredths of the
+    unit printed for n. Text is a list of Unicode scalar values; [cp] turns an ASCII string
+    literal into one. *)
 From Coq Require Import Decimal DecimalN.
 From Coq Require Import NArith ZArith List Bool String Ascii.
 From Imdl Require Import Model.Bencode Model.Float53 Model.ByteSize Generated.GenBytes
@@ -33,137 +35,134 @@ Theorem c16_unit_table :
   (forall k, 2 ^ (10 * k) = 1024 ^ k).
 Proof. repeat split; try reflexivity. intros k. rewrite N.pow_mul_r. reflexivity. Qed.
 
-(** (T) the constants of the Rust text are the constants of the model *)
+(** (T) the constants of the Rust text are the constants of the model (the number base and the
+    scale of the decimals are used by the model straight from the generated table; the
+    theorems below are proved for base 10 and scale 100 and stop checking otherwise) *)
 Theorem c16_model_matches_source :
+  GenBytes.decimals_from_integer = true /\
+  GenBytes.parse_base = 10 /\ GenBytes.disp_scale = 100 /\ 10 ^ GenBytes.disp_precision = GenBytes.disp_scale /\
   (forall c, is_numch c = ((GenBytes.digit_lo <=? c) && (c <=? GenBytes.digit_hi)) || (c =? GenBytes.digit_extra)) /\
-  (forall fu v i, unit_loop (S fu) v i =
-     if GenBytes.disp_threshold * GenBytes.disp_divisor ^ i <=? v then unit_loop fu v (i + 1) else Some i) /\
-  (forall v i, hundredths v i = rne_div (10 ^ GenBytes.disp_precision * v) (GenBytes.disp_divisor ^ i)) /\
+  (forall c r, split_dot (c :: r) =
+     if c =? GenBytes.split_char then ([], r) else let '(w, f) := split_dot r in (c :: w, f)) /\
+  (forall fu v i u, unit_loop (S fu) v i u =
+     if GenBytes.disp_threshold * GenBytes.disp_divisor ^ i <=? v
+     then unit_loop fu v (i + 1) (sat128 (u * GenBytes.disp_unit_factor)) else Some (i, u)) /\
+  (forall h, fmt2 h = dec (h / GenBytes.disp_scale) ++
+     [GenBytes.disp_point; 48 + (h mod GenBytes.disp_scale) / 10; 48 + h mod 10]) /\
   (forall l, trim l = trim_end GenBytes.trim_second (trim_end GenBytes.trim_first l)).
 Proof. repeat split; intros; reflexivity. Qed.
 
 (* ------------------------------------------------------------------ parsing *)
 
-(** an integer (leading zeros allowed) followed by any spelling, in any letter case, of a
-    unit denotes exactly integer * 1024^k whenever the product fits in 53 bits *)
+(** THE statement: a well-formed number I.F (any number of digits, either part possibly empty
+    but not both, leading zeros allowed) followed by any spelling, in any letter case, of a unit
+    parses to floor((I * 10^f + F) * 1024^k / 10^f) clamped at 2^64 - 1: exact truncation for
+    every accepted text *)
+Check parse_exact : forall ui uf s sh, num_ok ui uf = true -> spells s sh ->
+  bs_parse (num_text ui uf ++ s) =
+  BsOk (N.min (num_value ui uf * 2 ^ sh / 10 ^ num_frac uf) (2 ^ 64 - 1)).
+Theorem c16_parse_exact : forall ui uf s sh, num_ok ui uf = true -> spells s sh ->
+  bs_parse (num_text ui uf ++ s) =
+  BsOk (N.min (num_value ui uf * 2 ^ sh / 10 ^ num_frac uf) (2 ^ 64 - 1)).
+Proof. exact parse_exact. Qed.
+
+(** the names used in it, spelled out *)
+Theorem c16_parse_exact_reading :
+  (forall ui, num_text ui None = uint_bytes ui /\ num_value ui None = N.of_uint ui /\ num_frac None = 0 /\
+              num_ok ui None = negb (is_nil ui)) /\
+  (forall ui u, num_text ui (Some u) = uint_bytes ui ++ 46 :: uint_bytes u /\
+                num_value ui (Some u) = N.of_uint ui * 10 ^ N.of_nat (nb_digits u) + N.of_uint u /\
+                num_frac (Some u) = N.of_nat (nb_digits u) /\
+                num_ok ui (Some u) = negb (is_nil ui && is_nil u)) /\
+  (forall s sh, spells s sh <-> In (map lower s, sh) GenBytes.units).
+Proof. repeat split; intros; try reflexivity; trivial. Qed.
+
+(** corollary, the property's first clause: an integer followed by a unit denotes exactly
+    integer * 1024^k whenever the product fits in 53 bits - in fact whenever it fits in 64 *)
 Check parse_integer_exact : forall ui s sh,
-  is_nil ui = false -> spells s sh -> N.of_uint ui * 2 ^ sh < 2 ^ 53 ->
+  is_nil ui = false -> spells s sh -> N.of_uint ui * 2 ^ sh < 2 ^ 64 ->
   bs_parse (uint_bytes ui ++ s) = BsOk (N.of_uint ui * 2 ^ sh).
 Theorem c16_parse_integer_exact : forall ui s sh,
-  is_nil ui = false -> spells s sh -> N.of_uint ui * 2 ^ sh < 2 ^ 53 ->
+  is_nil ui = false -> spells s sh -> N.of_uint ui * 2 ^ sh < 2 ^ 64 ->
   bs_parse (uint_bytes ui ++ s) = BsOk (N.of_uint ui * 2 ^ sh).
 Proof. exact parse_integer_exact. Qed.
 
-(** … and more generally whenever the integer has at most 53 significant bits and the
-    product is a u64 (1eib … 15eib, 8191pib, …) *)
-Check parse_integer_wide : forall ui s sh,
-  is_nil ui = false -> spells s sh -> N.of_uint ui < 2 ^ 53 -> N.of_uint ui * 2 ^ sh < 2 ^ 64 ->
+Check parse_integer_53 : forall ui s sh,
+  is_nil ui = false -> spells s sh -> N.of_uint ui * 2 ^ sh < 2 ^ 53 ->
   bs_parse (uint_bytes ui ++ s) = BsOk (N.of_uint ui * 2 ^ sh).
-Theorem c16_parse_integer_wide : forall ui s sh,
-  is_nil ui = false -> spells s sh -> N.of_uint ui < 2 ^ 53 -> N.of_uint ui * 2 ^ sh < 2 ^ 64 ->
+Theorem c16_parse_integer_53 : forall ui s sh,
+  is_nil ui = false -> spells s sh -> N.of_uint ui * 2 ^ sh < 2 ^ 53 ->
   bs_parse (uint_bytes ui ++ s) = BsOk (N.of_uint ui * 2 ^ sh).
-Proof. exact parse_integer_wide. Qed.
+Proof. exact parse_integer_53. Qed.
 
 Example c16_parse_integer_inhabited :
   is_nil (N.to_uint 7) = false /\ spells (cp "GiB") 30 /\ N.of_uint (N.to_uint 7) * 2 ^ 30 < 2 ^ 53 /\
-  bs_parse (cp "7GiB") = BsOk (7 * 1024 ^ 3).
+  bs_parse (cp "7GiB") = BsOk (7 * 1024 ^ 3) /\ bs_parse (cp "15EiB") = BsOk (15 * 1024 ^ 6) /\
+  bs_parse (cp "18446744073709551615") = BsOk (2 ^ 64 - 1) /\ bs_parse (cp "9007199254740993") = BsOk (2 ^ 53 + 1).
 Proof. vm_compute. repeat split; try reflexivity. right; right; right; right; right; right; left; reflexivity. Qed.
 
-Example c16_parse_integer_wide_inhabited : bs_parse (cp "15EiB") = BsOk (15 * 1024 ^ 6).
-Proof. vm_compute. reflexivity. Qed.
-
+Check parse_canonical_integer : forall n s sh,
+  spells s sh -> n * 2 ^ sh < 2 ^ 64 -> bs_parse (dec n ++ s) = BsOk (n * 2 ^ sh).
 Theorem c16_parse_canonical_integer : forall n s sh,
-  spells s sh -> n * 2 ^ sh < 2 ^ 53 -> bs_parse (dec n ++ s) = BsOk (n * 2 ^ sh).
+  spells s sh -> n * 2 ^ sh < 2 ^ 64 -> bs_parse (dec n ++ s) = BsOk (n * 2 ^ sh).
 Proof. exact parse_canonical_integer. Qed.
 
-(** decimal fractions I.F: the result is the exact product truncated to whole bytes, A / D
-    with A = (I * 10^f + F) * 1024^k and D = 10^f, for any number of decimals, below 2^46,
-    when the product's fractional part is 0 or between 1% and 99% *)
+(** corollary, the property's second clause: decimal fractions I.F scale the same way,
+    truncated to whole bytes - A / D with A = (I * 10^f + F) * 1024^k and D = 10^f, for ANY
+    number of decimals, whenever the result is a u64 *)
 Check parse_fraction_exact : forall ui u s sh,
   num_ok ui (Some u) = true -> spells s sh ->
   let D := 10 ^ N.of_nat (nb_digits u) in
   let A := (N.of_uint ui * D + N.of_uint u) * 2 ^ sh in
-  let R := A mod D in
-  A < D * 2 ^ 46 -> (R = 0 \/ (D <= 100 * R /\ 100 * R <= 99 * D)) ->
+  A / D < 2 ^ 64 ->
   bs_parse (uint_bytes ui ++ 46 :: uint_bytes u ++ s) = BsOk (A / D).
 Theorem c16_parse_fraction_exact : forall ui u s sh,
   num_ok ui (Some u) = true -> spells s sh ->
   let D := 10 ^ N.of_nat (nb_digits u) in
   let A := (N.of_uint ui * D + N.of_uint u) * 2 ^ sh in
-  let R := A mod D in
-  A < D * 2 ^ 46 -> (R = 0 \/ (D <= 100 * R /\ 100 * R <= 99 * D)) ->
+  A / D < 2 ^ 64 ->
   bs_parse (uint_bytes ui ++ 46 :: uint_bytes u ++ s) = BsOk (A / D).
 Proof. exact parse_fraction_exact. Qed.
 
-(** … which is every fraction with at most two decimals (the property's quantifier) *)
-Check parse_two_decimals : forall ui u s sh,
-  num_ok ui (Some u) = true -> spells s sh -> (nb_digits u <= 2)%nat ->
-  let D := 10 ^ N.of_nat (nb_digits u) in
-  let A := (N.of_uint ui * D + N.of_uint u) * 2 ^ sh in
-  A < D * 2 ^ 46 ->
-  bs_parse (uint_bytes ui ++ 46 :: uint_bytes u ++ s) = BsOk (A / D).
-Theorem c16_parse_two_decimals : forall ui u s sh,
-  num_ok ui (Some u) = true -> spells s sh -> (nb_digits u <= 2)%nat ->
-  let D := 10 ^ N.of_nat (nb_digits u) in
-  let A := (N.of_uint ui * D + N.of_uint u) * 2 ^ sh in
-  A < D * 2 ^ 46 ->
-  bs_parse (uint_bytes ui ++ 46 :: uint_bytes u ++ s) = BsOk (A / D).
-Proof. exact parse_two_decimals. Qed.
+(** at and beyond 2^64 the result is 2^64 - 1 *)
+Check parse_saturates : forall ui uf s sh, num_ok ui uf = true -> spells s sh ->
+  2 ^ 64 <= num_value ui uf * 2 ^ sh / 10 ^ num_frac uf ->
+  bs_parse (num_text ui uf ++ s) = BsOk (2 ^ 64 - 1).
+Theorem c16_parse_saturates : forall ui uf s sh, num_ok ui uf = true -> spells s sh ->
+  2 ^ 64 <= num_value ui uf * 2 ^ sh / 10 ^ num_frac uf ->
+  bs_parse (num_text ui uf ++ s) = BsOk (2 ^ 64 - 1).
+Proof. exact parse_saturates. Qed.
 
-(** fractions (any number of decimals) whose product is a whole number below 2^53 *)
-Check parse_fraction_integral : forall ui u s sh,
-  num_ok ui (Some u) = true -> spells s sh ->
-  let D := 10 ^ N.of_nat (nb_digits u) in
-  let A := (N.of_uint ui * D + N.of_uint u) * 2 ^ sh in
-  A mod D = 0 -> A / D < 2 ^ 53 ->
-  bs_parse (uint_bytes ui ++ 46 :: uint_bytes u ++ s) = BsOk (A / D).
-Theorem c16_parse_fraction_integral : forall ui u s sh,
-  num_ok ui (Some u) = true -> spells s sh ->
-  let D := 10 ^ N.of_nat (nb_digits u) in
-  let A := (N.of_uint ui * D + N.of_uint u) * 2 ^ sh in
-  A mod D = 0 -> A / D < 2 ^ 53 ->
-  bs_parse (uint_bytes ui ++ 46 :: uint_bytes u ++ s) = BsOk (A / D).
-Proof. exact parse_fraction_integral. Qed.
-
-(** the property for two-decimal fractions on its whole domain (product fits in 53 bits),
-    outside the residual class [known_parse] = not a whole number and at least 2^46 *)
-Check parse_two_decimals_unless_known : forall ui u s sh,
-  num_ok ui (Some u) = true -> spells s sh -> (nb_digits u <= 2)%nat ->
-  let D := 10 ^ N.of_nat (nb_digits u) in
-  let A := (N.of_uint ui * D + N.of_uint u) * 2 ^ sh in
-  A / D < 2 ^ 53 -> ~ known_parse A D ->
-  bs_parse (uint_bytes ui ++ 46 :: uint_bytes u ++ s) = BsOk (A / D).
-Theorem c16_parse_two_decimals_unless_known : forall ui u s sh,
-  num_ok ui (Some u) = true -> spells s sh -> (nb_digits u <= 2)%nat ->
-  let D := 10 ^ N.of_nat (nb_digits u) in
-  let A := (N.of_uint ui * D + N.of_uint u) * 2 ^ sh in
-  A / D < 2 ^ 53 -> ~ known_parse A D ->
-  bs_parse (uint_bytes ui ++ 46 :: uint_bytes u ++ s) = BsOk (A / D).
-Proof. exact parse_two_decimals_unless_known. Qed.
-
-Example c16_parse_known_domain_inhabited :
-  (let D := 100 in let A := 175 * 2 ^ 40 in A / D < 2 ^ 53 /\ ~ known_parse A D) /\
-  (let D := 10 in let A := 15 * 2 ^ 50 in A mod D = 0 /\ A / D < 2 ^ 53).
-Proof.
-  split; cbv zeta; split; try (vm_compute; reflexivity).
-  intros [H1 _]. vm_compute in H1. apply H1. reflexivity.
-Qed.
-
+(** the inputs of the two repaired findings and of the old domain restrictions, as regression
+    cases: products in [2^46, 2^64) with fractions, many decimals, more than 53 significant bits,
+    saturation *)
 Example c16_parse_fraction_inhabited :
   bs_parse (cp "1.75TiB") = BsOk (175 * 1024 ^ 4 / 100) /\ bs_parse (cp "0.07kib") = BsOk 71 /\
   bs_parse (cp ".5MIB") = BsOk (512 * 1024) /\ bs_parse (cp "3.") = BsOk 3 /\
-  bs_parse (cp "1.5pib") = BsOk (3 * 2 ^ 49) /\ bs_parse (cp "0.0000152587890625tib") = BsOk (2 ^ 24).
-Proof. vm_compute. repeat split; reflexivity. Qed.
+  bs_parse (cp "1.5pib") = BsOk (3 * 2 ^ 49) /\ bs_parse (cp "0.0000152587890625tib") = BsOk (2 ^ 24) /\
+  bs_parse (cp "4503599627370496.75") = BsOk 4503599627370496 /\
+  bs_parse (cp "2.99pib") = BsOk (299 * 2 ^ 50 / 100) /\
+  bs_parse (cp "0.99999999999999999999") = BsOk 0 /\
+  bs_parse (cp "15.99999999999999999eib") = BsOk (2 ^ 64 - 1 - 11) /\
+  bs_parse (cp "16eib") = BsOk (2 ^ 64 - 1) /\
+  bs_parse (cp "99999999999999999999999999999999999999999999999999") = BsOk (2 ^ 64 - 1) /\
+  (let D := 100 in let A := 299 * 2 ^ 50 in A / D < 2 ^ 64 /\ A mod D <> 0 /\ 2 ^ 46 <= A / D).
+Proof. vm_compute. repeat split; try reflexivity; intros H; discriminate H. Qed.
 
 (** rejection: whatever parses IS a well-formed number (digits, at most one dot, at least one
-    digit) followed by a table spelling in some letter case — nothing else is accepted *)
+    digit) followed by a table spelling in some letter case - nothing else is accepted *)
 Check parse_accepts_only : forall t v, bs_parse t = BsOk v ->
   exists ui uf s sh, t = num_text ui uf ++ s /\ num_ok ui uf = true /\ spells s sh /\
-                     v = parse_val (num_value ui uf) (num_frac uf) sh.
+                     v = N.min (num_value ui uf * 2 ^ sh / 10 ^ num_frac uf) (2 ^ 64 - 1).
 Theorem c16_parse_accepts_only : forall t v, bs_parse t = BsOk v ->
   exists ui uf s sh, t = num_text ui uf ++ s /\ num_ok ui uf = true /\ spells s sh /\
-                     v = parse_val (num_value ui uf) (num_frac uf) sh.
+                     v = N.min (num_value ui uf * 2 ^ sh / 10 ^ num_frac uf) (2 ^ 64 - 1).
 Proof. exact parse_accepts_only. Qed.
+
+(** no text makes the integer evaluation panic (no u128 operator overflows) *)
+Check parse_total : forall t, bs_parse t <> BsPanic.
+Theorem c16_parse_total : forall t, bs_parse t <> BsPanic.
+Proof. exact parse_total. Qed.
 
 Theorem c16_parse_rejects_suffix : forall t,
   ~ In (map lower (skip_while is_numch t)) (map fst GenBytes.units) -> forall v, bs_parse t <> BsOk v.
@@ -182,12 +181,16 @@ Proof. vm_compute. repeat split; reflexivity. Qed.
 
 (* ------------------------------------------------------------------ printing *)
 
+(** the hundredths that get printed: 100 n / 1024^i on the TRUE n, nearest, ties to even *)
+Theorem c16_hund_def : forall n, hund n = rne_div (100 * n) (1024 ^ unit_of n).
+Proof. intros n. reflexivity. Qed.
+
 (** the printed text for every u64: a numeral with at most two decimals and no trailing
     zeros ([two_dec]), a space, the unit word; never a panic *)
 Check display_eq : forall n, n < 2 ^ 64 ->
-  bs_display n = Some (two_dec (hundredths (round53 n) (unit_of n)) ++ 32 :: word_of (unit_of n) n).
+  bs_display n = Some (two_dec (hund n) ++ 32 :: word_of (unit_of n) n).
 Theorem c16_display_form : forall n, n < 2 ^ 64 ->
-  bs_display n = Some (two_dec (hundredths (round53 n) (unit_of n)) ++ 32 :: word_of (unit_of n) n).
+  bs_display n = Some (two_dec (hund n) ++ 32 :: word_of (unit_of n) n).
 Proof. exact display_eq. Qed.
 
 (** [two_dec] is what the property says: integer part; no point when the fraction is zero;
@@ -199,8 +202,8 @@ Theorem c16_two_dec_shape : forall h,
               else dec q ++ [46; 48 + r / 10; 48 + r mod 10].
 Proof. intros h. reflexivity. Qed.
 
-(** … and, read back with the model's own number reader, that numeral denotes exactly
-    [h] hundredths (so the error bounds below are bounds on the printed text) *)
+(** ... and, read back with the model's own number reader, that numeral denotes exactly
+    [h] hundredths (so the error bound below is a bound on the printed text) *)
 Check two_dec_denotes : forall h, numeral_hundredths (two_dec h) = Some h.
 Theorem c16_two_dec_denotes : forall h, numeral_hundredths (two_dec h) = Some h.
 Proof. exact two_dec_denotes. Qed.
@@ -219,83 +222,47 @@ Theorem c16_display_byte_iff : forall n, n < 2 ^ 64 ->
   (word_of (unit_of n) n = GenBytes.word_one <-> n = 1).
 Proof. exact display_byte_iff. Qed.
 
-(** printed value within half a hundredth of the unit: of the double for every n … *)
+(** the printed value h / 100 is within half a hundredth of the unit of the TRUE value
+    n / 1024^i, for EVERY n: | h * u - 100 n | <= u / 2, in integers *)
+Check display_error : forall n,
+  let u := 1024 ^ unit_of n in let h := hund n in
+  2 * (h * u) <= 2 * (100 * n) + u /\ 2 * (100 * n) <= 2 * (h * u) + u.
 Theorem c16_display_error : forall n,
-  let v := round53 n in let u := 1024 ^ unit_of n in let h := hundredths v (unit_of n) in
-  2 * (h * u) <= 2 * (100 * v) + u /\ 2 * (100 * v) <= 2 * (h * u) + u.
+  let u := 1024 ^ unit_of n in let h := hund n in
+  2 * (h * u) <= 2 * (100 * n) + u /\ 2 * (100 * n) <= 2 * (h * u) + u.
 Proof. exact display_error. Qed.
 
-(** … of the TRUE value for every n outside the residual class n > 2^53 … *)
-Theorem c16_display_error_true : forall n, n <= 2 ^ 53 ->
-  let u := 1024 ^ unit_of n in let h := hundredths (round53 n) (unit_of n) in
-  2 * (h * u) <= 2 * (100 * n) + u /\ 2 * (100 * n) <= 2 * (h * u) + u.
-Proof. exact display_error_true. Qed.
-
-(** … and above it the double differs from n by at most one part in 2^53 *)
-Theorem c16_round53_relative_error : forall n,
-  2 ^ 53 * round53 n <= 2 ^ 53 * n + n /\ 2 ^ 53 * n <= 2 ^ 53 * round53 n + n.
-Proof. exact round53_rel_err. Qed.
-
-(** together: for every u64 the printed value is within 0.005 unit + n / 2^53 of the true value *)
-Check display_error_all : forall n,
-  let u := 1024 ^ unit_of n in let h := hundredths (round53 n) (unit_of n) in
-  2 ^ 53 * (2 * (h * u)) <= 2 ^ 53 * (2 * (100 * n) + u) + 200 * n /\
-  2 ^ 53 * (2 * (100 * n)) <= 2 ^ 53 * (2 * (h * u) + u) + 200 * n.
-Theorem c16_display_error_all : forall n,
-  let u := 1024 ^ unit_of n in let h := hundredths (round53 n) (unit_of n) in
-  2 ^ 53 * (2 * (h * u)) <= 2 ^ 53 * (2 * (100 * n) + u) + 200 * n /\
-  2 ^ 53 * (2 * (100 * n)) <= 2 ^ 53 * (2 * (h * u) + u) + 200 * n.
-Proof. exact display_error_all. Qed.
-
+(** regression cases include the witnesses of the repaired finding (ties above 2^53) *)
 Example c16_display_inhabited :
   bs_display 1 = Some (cp "1 byte") /\ bs_display 1536 = Some (cp "1.5 KiB") /\
   bs_display (2 ^ 64 - 1) = Some (cp "16 EiB") /\ bs_display (1024 * 1024 - 1) = Some (cp "1024 KiB") /\
-  bs_display (1024 + 128) = Some (cp "1.12 KiB") /\ bs_display (1024 + 384) = Some (cp "1.38 KiB").
+  bs_display (1024 + 128) = Some (cp "1.12 KiB") /\ bs_display (1024 + 384) = Some (cp "1.38 KiB") /\
+  bs_display 9147936743096321 = Some (cp "8.13 PiB") /\ bs_display (2 ^ 53 + 2 ^ 47 + 1) = Some (cp "8.13 PiB") /\
+  bs_display (2 ^ 53 + 2 ^ 47) = Some (cp "8.12 PiB") /\ bs_display (2 ^ 60 - 1) = Some (cp "1 EiB").
 Proof. vm_compute. repeat split; reflexivity. Qed.
-
-(* ------------------------------------------------------------------ the two residual float classes *)
-(** Outside the domains above the literal property is false of the faithful model (and of
-    the code): open known findings `parse-fraction-ge-2^46` and `display-gt-2^53`. *)
-Theorem c16_parse_fraction_residual :
-  exists ui u, uint_bytes ui ++ 46 :: uint_bytes u = txt_4503599627370496_75 /\
-    let D := 10 ^ N.of_nat (nb_digits u) in let A := (N.of_uint ui * D + N.of_uint u) * 2 ^ 0 in
-    (nb_digits u <= 2)%nat /\ known_parse A D /\ A / D < 2 ^ 53 /\
-    bs_parse (uint_bytes ui ++ 46 :: uint_bytes u ++ []) = BsOk (A / D + 1).
-Proof. exact parse_fraction_residual. Qed.
-
-Theorem c16_display_residual :
-  exists n, 2 ^ 53 < n /\ n < 2 ^ 64 /\
-    let u := 1024 ^ unit_of n in let h := hundredths (round53 n) (unit_of n) in
-    2 * (h * u) + u < 2 * (100 * n).
-Proof. exact display_residual. Qed.
 
 Print Assumptions c16_sources_translated.
 Print Assumptions c16_unit_table.
 Print Assumptions c16_model_matches_source.
+Print Assumptions c16_parse_exact.
+Print Assumptions c16_parse_exact_reading.
 Print Assumptions c16_parse_integer_exact.
-Print Assumptions c16_parse_integer_wide.
+Print Assumptions c16_parse_integer_53.
 Print Assumptions c16_parse_integer_inhabited.
-Print Assumptions c16_parse_integer_wide_inhabited.
 Print Assumptions c16_parse_canonical_integer.
 Print Assumptions c16_parse_fraction_exact.
-Print Assumptions c16_parse_two_decimals.
-Print Assumptions c16_parse_fraction_integral.
-Print Assumptions c16_parse_two_decimals_unless_known.
-Print Assumptions c16_parse_known_domain_inhabited.
+Print Assumptions c16_parse_saturates.
 Print Assumptions c16_parse_fraction_inhabited.
 Print Assumptions c16_parse_accepts_only.
+Print Assumptions c16_parse_total.
 Print Assumptions c16_parse_rejects_suffix.
 Print Assumptions c16_parse_rejects_number.
 Print Assumptions c16_parse_rejects_inhabited.
+Print Assumptions c16_hund_def.
 Print Assumptions c16_display_form.
 Print Assumptions c16_two_dec_shape.
 Print Assumptions c16_two_dec_denotes.
 Print Assumptions c16_display_unit.
 Print Assumptions c16_display_byte_iff.
 Print Assumptions c16_display_error.
-Print Assumptions c16_display_error_true.
-Print Assumptions c16_round53_relative_error.
-Print Assumptions c16_display_error_all.
 Print Assumptions c16_display_inhabited.
-Print Assumptions c16_parse_fraction_residual.
-Print Assumptions c16_display_residual.
